@@ -167,7 +167,27 @@ StepAll(a, act, o2) ==
 
 AbsNext(a, act, o2) == StepAll(a, act, o2).a
 
-Viol(a, o, act, a2, o2) == StepAll(a, act, o2).v
+\* "... and miss no relevant tx": the driver's step Idle says that the rescan is
+\* still running, sits idle in its select, has been handed every notification
+\* and has no retry pending; act.add is the announced chain (genesis first).
+\* If the block the caller was last told is current lies on that chain and a
+\* block above it holds a transaction that is relevant to what the caller
+\* watches, that transaction will never be delivered.
+RECURSIVE MissesRelevant(_, _, _)
+MissesRelevant(a, ch, i) ==
+  IF i > Len(ch) THEN FALSE
+  ELSE IF Len(Required(a, ch[i]).rel) > 0 THEN TRUE
+  ELSE MissesRelevant(a, ch, i + 1)
+
+IdleViol(a, act) ==
+  IF act.op # "Idle" THEN {}
+  ELSE LET ch == act.add
+           on == {i \in 1..Len(ch) : ch[i] = a.cur}
+       IN  IF on = {} \/ Len(a.pend) > 0 THEN {}
+           ELSE LET i == CHOOSE j \in on : TRUE
+                IN  IF MissesRelevant(a, ch, i + 1) THEN {"RelevantTxNeverDelivered"} ELSE {}
+
+Viol(a, o, act, a2, o2) == StepAll(a, act, o2).v \cup IdleViol(a2, act)
 
 EndViol(a, o) == {}
 =============================================================================
